@@ -48,7 +48,7 @@ def _consumed_in_iteration(closure, stop):
     consumer before anything lazy or any container keeps it?"""
     child, p = closure, getattr(closure, "_parent", None)
     through_lazy = False
-    while p is not None and p is not stop:
+    while p is not None and p is not stop and not (isinstance(p, ast.stmt) and isinstance(closure, ast.FunctionDef)):
         if isinstance(p, ast.Call):
             nm = p.func.id if isinstance(p.func, ast.Name) else (p.func.attr if isinstance(p.func, ast.Attribute) else None)
             if child is p.func:
@@ -106,12 +106,12 @@ def rule_pitfalls(prog, rep, tier, scope=None):
                         continue
                     seen_nodes.add(id(c))
                     n += 1
-                    if kind == "comprehension":
-                        # the comprehension's value is the collection of closures unless it is consumed on the spot by a call
-                        # of each element - which a comprehension cannot do - so: does the element call it immediately?
-                        consumed = _consumed_in_iteration(c, it)
-                        # a generator expression handed to an eager consumer evaluates each closure... but only calls it if
-                        # the element expression does
+                    if isinstance(c, ast.FunctionDef):
+                        # a named helper defined in the loop body: what matters is where its *name* goes - called or handed
+                        # to an eager consumer inside the same iteration is fine; stored, returned or used after the loop is not
+                        uses = [u for u in ast.walk(f.node) if isinstance(u, ast.Name) and u.id == c.name and isinstance(u.ctx, ast.Load)]
+                        inside = [u for u in uses if any(u is x for r_ in region for x in ast.walk(r_))]
+                        consumed = len(inside) == len(uses) and all(_consumed_in_iteration(u, it) for u in inside)
                     else:
                         consumed = _consumed_in_iteration(c, it)
                     inst = "%s: closure over %s in a %s" % (where, ", ".join(sorted(cap)), kind)
